@@ -299,6 +299,25 @@ func run(c TCase, check string, info *TInfo) *vstat.Violation {
 			}
 			r.call(d, 0, false)
 			info.class("neighbour_deadlines_with_a_worker_freed_at_the_first")
+		case "format":
+			// a future is printed, as a log line would do (it implements fmt.Stringer); any future: pending, fired, cancelled
+			r.mu.Lock()
+			n := len(r.futs)
+			var fu timeout.Future
+			if n > 0 {
+				fu = r.futs[op.F%n].fut
+			}
+			r.mu.Unlock()
+			if fu != nil {
+				done := make(chan struct{})
+				go func() { _ = fmt.Sprint(fu); _ = fmt.Sprintf("%v %s", fu, fu); close(done) }()
+				select {
+				case <-done:
+				case <-time.After(latenessBound):
+					return vstat.V("timers:format-blocks", "printing future #%d (fmt.Sprint) did not return within %v", op.F%n, latenessBound)
+				}
+				info.class("future_formatted")
+			}
 		case "sleep":
 			time.Sleep(time.Duration(op.D) * time.Millisecond)
 		case "gap": // idle gap longer than two idle timeouts: every worker may leave
